@@ -22,6 +22,7 @@ import (
 	"fmt"
 	"math/rand"
 	"os"
+	"regexp"
 	"sort"
 	"strings"
 	"sync"
@@ -219,6 +220,7 @@ type worker struct {
 	dir     string
 	tracker *rig.Tracker
 	seeder  *rig.Peer
+	sgate   *rig.Gate // seeder-side event counters (diagnostics only)
 	pool    []*rig.Blob
 	missing *rig.Blob
 }
@@ -236,9 +238,10 @@ func newWorker(run *ev.Run, id int, base string) (*worker, error) {
 	w := &worker{id: id, dir: rig.MkDir(base, fmt.Sprintf("w%d", id)), tracker: rig.NewTracker()}
 	r := run.Rand(fmt.Sprintf("worker-%d", id))
 	var err error
+	w.sgate = rig.NewGate()
 	w.seeder, err = rig.NewPeer(rig.PeerOptions{
 		Config: seederConfig(), Clock: clock.NewMock(), Tracker: w.tracker,
-		Dir: rig.MkDir(w.dir, "seeder"), PeerID: rig.RandomPeerID(r),
+		Dir: rig.MkDir(w.dir, "seeder"), PeerID: rig.RandomPeerID(r), Hooks: w.sgate.Hooks(),
 	})
 	if err != nil {
 		return nil, err
@@ -527,6 +530,7 @@ func (cr *caseRun) startDownload(stepIdx, b int) {
 		}
 	}
 	before := cr.gate.Count(rig.EvNewTorrent)
+	failedBefore := cr.gate.Count("failedOutgoingHandshakeEvent").Applied
 	c := cr.launch(stepIdx, b)
 	// Settle: the request reached the loop (applied), parked at the gate, or returned.
 	if !cr.settleDoneOr(c.done, func(count func(string) rig.Counters) bool {
@@ -534,6 +538,44 @@ func (cr *caseRun) startDownload(stepIdx, b int) {
 		return n.Applied > before.Applied || n.Parked > before.Parked
 	}) {
 		cr.fail("watchdog: download request neither applied, parked nor returned")
+		return
+	}
+	// If this request (re)started an in-progress download and the seeder is
+	// reachable, wait for the conn: a handshake still pending when a later step
+	// cancels the torrent would occupy the seeder's slot in the conn state and
+	// silently block the next generation's only connection attempt.
+	if b < 0 || cr.stopStarted || cr.gate.Held(rig.EvNewTorrent) || (cr.closedOnce[b] && !cr.spec.NoBlacklist) {
+		return
+	}
+	h := blob.InfoHash()
+	// Best effort: the wait ends on a logical outcome (conn, completion, removal,
+	// failed handshake, failed write); when the seeder silently rejected the
+	// handshake (it still knew an older conn of this peer) nothing will ever
+	// happen, so after a few seconds the step gives up WITHOUT any verdict and
+	// fill is skipped later for lack of a conn.
+	giveUp := time.Now().Add(3 * time.Second)
+	for {
+		var st scheduler.VerifC17TorrentState
+		has := false
+		ok := cr.L.Sched.VerifC17Inspect(func(v scheduler.VerifC17View) {
+			st = v.Torrent(h)
+			has = v.HasConn(cr.w.seeder.Pctx.PeerID, h)
+		})
+		if !ok || !st.Present || st.Complete || has || cr.L.InCache(blob) {
+			return
+		}
+		if w := cr.wgate.Count(fmt.Sprintf("write:%d", b)); w.Sent-w.SentOK > cr.errsAck[b] {
+			return // a piece write failed: the conn may already be gone again
+		}
+		if cr.gate.Count("failedOutgoingHandshakeEvent").Applied > failedBefore {
+			cr.run.Count("dl_handshake_failed", 1)
+			return
+		}
+		if time.Now().After(giveUp) {
+			cr.run.Count("dl_conn_wait_gave_up", 1)
+			return
+		}
+		time.Sleep(time.Millisecond)
 	}
 }
 
@@ -647,6 +689,16 @@ func (cr *caseRun) execStep(idx int, s step) {
 		}
 		if cr.closedOnce[s.B] && !cr.spec.NoBlacklist {
 			skip("seeder-blacklisted")
+			return
+		}
+		// Progress is only guaranteed with a conn to the seeder (or a piece already
+		// waiting at the write gate).
+		hasConn := false
+		cr.L.Sched.VerifC17Inspect(func(v scheduler.VerifC17View) {
+			hasConn = v.HasConn(cr.w.seeder.Pctx.PeerID, cr.blobs[s.B].InfoHash())
+		})
+		if !hasConn && cr.wgate.Count(fmt.Sprintf("write:%d", s.B)).Parked == 0 {
+			skip("no-conn")
 			return
 		}
 		wname := fmt.Sprintf("write:%d", s.B)
@@ -893,15 +945,9 @@ func (cr *caseRun) order() string {
 }
 
 // normErr strips paths from an error text so that it can serve as a counter name.
-func normErr(err error) string {
-	f := strings.Fields(err.Error())
-	for i, w := range f {
-		if strings.HasPrefix(w, "/") {
-			f[i] = "<path>"
-		}
-	}
-	return strings.Join(f, " ")
-}
+var pathRe = regexp.MustCompile(`/[^\s:}\]]+`)
+
+func normErr(err error) string { return pathRe.ReplaceAllString(err.Error(), "<path>") }
 
 func classify(err error) string {
 	switch err {
@@ -920,6 +966,10 @@ func classify(err error) string {
 }
 
 func (cr *caseRun) teardown() {
+	// The stub tracker hands out every peer that ever announced; a dead leecher
+	// left in the list would take one of the next leecher's 10 pending-conn
+	// slots (and with a mock clock nothing re-announces).
+	defer cr.w.tracker.Forget(cr.L.Pctx.PeerID)
 	cr.gate.ReleaseAll()
 	cr.wgate.ReleaseAll()
 	if !cr.stopStarted && !cr.wedged {
@@ -1178,7 +1228,7 @@ func (cr *caseRun) launch(stepIdx, b int) *call {
 }
 
 func stress(t *testing.T, run *ev.Run, base string) {
-	rounds := run.N(0, 150)
+	rounds := run.N(0, 300)
 	const workers = 8
 	var wg sync.WaitGroup
 	for wi := 0; wi < workers; wi++ {
@@ -1278,7 +1328,7 @@ func TestC17(t *testing.T) {
 	run.Assume("the in-process seeder, the stub tracker (static handout + metainfo) and the mock clock behave as their real counterparts")
 	run.Assume("holding the send of an event before it reaches the unbuffered loop channel is a schedule the Go runtime may produce")
 
-	n := run.N(160, 2000)
+	n := run.N(160, 4000)
 	gr := run.Rand("schedules")
 	specs := make([]*caseSpec, n)
 	for i := range specs {
